@@ -48,11 +48,14 @@ def roleOf : HK → Role
 
 /-- Claim carried by the program counter alone (no handle exists yet / at all):
     `alloc_frame` between the successful `None → Created` compare-exchange and the construction of the
-    `CreatedFrame`; `receive_frame` between `claim_receiving` and `mark_received`. -/
+    `CreatedFrame`; `receive_frame` between `claim_receiving` and `mark_received` (or the hand-back
+    `RxBusy → Sent` after the marker re-check failed, or an error return). -/
 def Pc.claim : Pc → Option (Nat × Role)
   | .alWaker _ k => some (k, .creator)
   | .alFirst _ k => some (k, .creator)
   | .alBuf _ k => some (k, .creator)
+  | .rxVerify k _ _ => some (k, .rx)
+  | .rxUnclaim k => some (k, .rx)
   | .rxCopy k _ => some (k, .rx)
   | .rxMark k => some (k, .rx)
   | _ => none
